@@ -1,5 +1,8 @@
 //! vrl-verif-harness: runs the real vrl code on generated cases and writes the line-protocol
 //! files compared against the Lean model by /verif/bin/check.
+mod arith;
+mod c10;
+mod c11;
 mod c18;
 mod gens;
 mod lang;
@@ -15,7 +18,11 @@ use std::path::PathBuf;
 /// Run one case (`op` + inputs) on the implementation.
 pub fn exec(op: &str, inputs: &[String]) -> Option<Reply> {
     // first module that recognises the op answers
-    None.or_else(|| c18::exec(op, inputs)).or_else(|| lang::exec(op, inputs))
+    None.or_else(|| c18::exec(op, inputs))
+        .or_else(|| lang::exec(op, inputs))
+        .or_else(|| arith::exec(op, inputs))
+        .or_else(|| c10::exec(op, inputs))
+        .or_else(|| c11::exec(op, inputs))
 }
 
 fn generate(prop: &str, sink: &mut sink::Sink, rng: &mut rng::Rng, n: u64) -> bool {
@@ -27,6 +34,8 @@ fn generate(prop: &str, sink: &mut sink::Sink, rng: &mut rng::Rng, n: u64) -> bo
         "C08" => lang::generate(sink, rng, n, false, Some("o.c08")),
         "C09" => lang::generate(sink, rng, n, false, Some("o.c09")),
         "C13" => lang::generate(sink, rng, n, false, Some("o.c13")),
+        "C10" => c10::generate(sink, rng, n),
+        "C11" => c11::generate(sink, rng, n),
         _ => return false,
     }
     true
